@@ -4,7 +4,7 @@ model (the loop itself is FP/Model/Search.lean). Mirrors the code as it is on th
 
 def hi(cls, m):
     if cls in ("MinFlowDecomp", "MinFlowDecompCycles", "MinPathCoverCycles"):
-        return m.G.number_of_edges()            # range(lb, |E(G_internal)|)
+        return m.G.number_of_edges() + 1        # range(lb, |E(G_internal)| + 1)  (since fix 2d6e71b)
     if cls == "MinPathCover":
         return m.G.number_of_edges()            # m.G is the (already augmented) stDAG
     if cls == "MinGenSet":
